@@ -469,3 +469,22 @@ def stage_record_and_validate(c, suite, trace_module, trace_cfg, classify, timeo
     c.notes.append("code->spec %s: %d events, %d rejected for this property (%d rejected in all)" % (
         suite, len(events), mine, verdict.get("nbad", 0) if not ok else 0))
     return events, out
+
+
+# --------------------------------------------------------------------------------------
+# binding self-test: a trace specification must reject a corrupted / shortened real trace
+
+def binding_selftest(c, trace_module, trace_cfg, trace_path, mutate, tag, timeout=900, xmx="6g", single_object=False):
+    """mutate(events) -> list of (name, mutated_events). Each mutated trace must be REJECTED by the trace
+    specification; if one is accepted the specification does not bind the code (tool error)."""
+    if single_object:
+        events = [json.loads(open(trace_path).read())]
+    else:
+        events = [json.loads(l) for l in open(trace_path)]
+    for name, mutated in mutate(events):
+        p = workfile(c.pid, "selftest_%s_%s.ndjson" % (tag, name))
+        write_ndjson(p, mutated)
+        ok, verdict, tres = validate_trace(trace_module, trace_cfg, p, "%s/selftest_%s_%s" % (c.pid, tag, name), timeout=timeout, xmx=xmx)
+        if ok:
+            raise ToolError("binding self-test '%s' on %s: the corrupted trace was ACCEPTED" % (name, trace_module))
+        c.notes.append("binding self-test %s/%s: corrupted trace rejected (%s)" % (trace_module, name, json.dumps(verdict.get("why", verdict.get("bad", "?")))[:160]))
